@@ -44,6 +44,7 @@ def run(ctx):
     ctx.assumptions += [
         "WellFormedWs (Props/C10.lean): stems pairwise distinct up to case, every file declares the entity named like its stem as its first declaration, all members and uses precede the first method, declaration uids distinct; parent chains are followed with fuel = number of files (acyclic forests are complete; cycles are C14's subject)",
         "one manager per queried file: answers are those of a server that has analysed nothing else before (which documents were analysed earlier can change the table a descendant's parent pointer refers to: cache coherence is C02's subject)",
+        "line ends separate nothing: the identifier-initial line after a dangling `x.` continues the chain (`x.⏎name = 1` is `x.name = 1`); its first identifier is expected to resolve as a member of x's class. After a dot only field / method names (or names the class does not declare at all) are generated: constants, types, `self` and entity names after a dot are outside the generator's domain",
         "alias types are resolved through the class's own chain or through used modules (entities that depend on nothing), so that no table is consulted while it is half built by a cyclic dependency",
     ]
     ctx.extract(["E8_ScopeConsts"])      # native keys, intrinsics, completion filters: the model consumes them
@@ -114,8 +115,10 @@ def run(ctx):
 
 RULE = ("cases = corpus/C10 witnesses + generated workspaces (inheritance forests to depth 4, modules, uses graphs with cycles, overriding also in "
         "another letter case, locals/params shadowing members, consts/types/aliases, chained access through fields, function calls and modules, "
+        "uses lists that also name entities without a file at any position, methods without a body (external / forward) with parameters in classes "
+        "and modules, dangling dots followed by keyword lines and by identifier-initial lines that continue the chain, "
         "references re-cased at random) x every identifier occurrence (plain, left of dot, k-th element of a chain, own declared names, type, parent "
-        "and uses references, unresolvable names); one evaluation = one definition request on the real ProjectManager compared with the model and "
+        "and uses references incl. the missing entities, names only a body-less method's parameter carries, unresolvable names); one evaluation = one definition request on the real ProjectManager compared with the model and "
         "with the generator's declaration map; distinct_nontrivial = number of distinct non-empty implementation answers")
 
 
